@@ -69,7 +69,7 @@ Qed.
 
 Lemma enc_rcds_length rs : (length rs <= length (enc_rcds rs))%nat.
 Proof.
-  induction rs as [|r t IH]; [cbn; lia|]. cbn [enc_rcds flat_map length]. rewrite app_length.
+  induction rs as [|r t IH]; [cbn [enc_rcds flat_map length]; lia|]. cbn [enc_rcds flat_map length]. rewrite app_length.
   change (flat_map enc_rcd t) with (enc_rcds t). unfold enc_rcd, enc_rcd_rsv. cbn [app length]. lia.
 Qed.
 
@@ -720,3 +720,147 @@ Proof.
       * intros HI. exfalso. apply (proj1 (INV HI)). reflexivity.
 Qed.
 End Peer.
+
+(* ------------------------------------------------------------------------------------------ *)
+(* Part 2: the theorems                                                                         *)
+(* ------------------------------------------------------------------------------------------ *)
+
+Theorem counts_app : counts_app_stmt.
+Proof. exact counts_app_proof. Qed.
+Print Assumptions counts_app.
+
+Theorem replies_whole_partial : replies_whole_partial_stmt.
+Proof. exact replies_whole_partial_proof. Qed.
+Print Assumptions replies_whole_partial.
+
+Theorem parse_out_whole : parse_out_whole_stmt.
+Proof. exact parse_out_whole_proof. Qed.
+Print Assumptions parse_out_whole.
+
+Theorem read_block_counts : read_block_counts_stmt.
+Proof.
+  intros maxc fuel dest r w w' Hinv Hrem _ Hwl Hwo E.
+  pose proof (await_input_peer maxc fuel dest r w Hinv Hrem) as H. rewrite E in H. cbn [ai_peer] in H.
+  destruct H as (r' & (rd & fl & L1 & L2 & L3) & D & _). destruct (D eq_refl) as (Hg & HR0).
+  specialize (L3 []). cbn [app] in L3. rewrite app_nil_r, HR0, app_nil_r in L3. subst fl.
+  assert (Hrd : bytes_ok rd) by (rewrite L1 in Hrem; apply bytes_ok_app in Hrem; apply Hrem).
+  assert (Hw : whole (R maxc (abs (rsp r)) rd)) by (apply replies_whole_partial_proof; [apply Hinv|exact Hrd|exact Hwo]).
+  exists rd. split; [exact L1|]. split; [exact L2|]. split; [exact Hw|].
+  split; [rewrite L2; apply counts_app_proof; assumption|]. apply gated_next, Hg.
+Qed.
+Print Assumptions read_block_counts.
+
+Theorem peer_read_no_deadlock : peer_read_no_deadlock_stmt.
+Proof.
+  intros maxc fuel dest r w w' Hinv Hrem _ Hwl Hwo Hg E.
+  pose proof (await_input_peer maxc fuel dest r w Hinv Hrem) as H. rewrite E in H. cbn [ai_peer] in H.
+  destruct H as (r' & _ & _ & HN). apply HN; [|reflexivity].
+  apply GW_init; [apply Hinv|exact Hwl|exact Hwo|exact Hrem|exact Hg].
+Qed.
+Print Assumptions peer_read_no_deadlock.
+
+(* Token::parse_request once more, carrying the parser invariant so that every output is known to be records *)
+Lemma parse_request_whole norm maxc : forall fuel p new w w',
+  parser_ok p -> bytes_ok new -> len new <= input_space p -> bytes_ok (remaining w) ->
+  parse_request norm maxc fuel p new w = Halt ODeadlock w' ->
+  gated w' /\ exists outs, pr_chain norm maxc p new outs /\ wlog w' = wlog w ++ concat outs /\ whole (concat outs).
+Proof.
+  induction fuel as [|f IH]; intros p new w w' Hp Hn Hl Hrem E; [discriminate E|].
+  rewrite parse_request_iter in E.
+  destruct (F_parse_total norm maxc p new Hp Hn Hl) as (p1 & d1 & o1 & EP1 & Hp1 & _).
+  destruct (parse norm maxc p new) as [p' done out|n] eqn:EP; [|discriminate E]. injection EP1 as <- <- <-.
+  pose proof (parse_out_whole_proof norm maxc p new p' done out Hp Hn Hl EP) as Hout.
+  pose proof (await_write_all_spec (io_fuel w (len out)) true out w) as H.
+  destruct (await_write_all (io_fuel w (len out)) true out w) as [[k|] w1|o w1]; [discriminate E| |].
+  2:{ injection E as -> ->. contradiction. }
+  pose proof (io_rel_wlog _ _ _ H) as L1.
+  assert (Hrem1 : bytes_ok (remaining w1)) by (rewrite (same_but_io_remaining w w1); [exact Hrem|apply H]).
+  destruct done; [destruct (into_stream_parser p'); discriminate E|].
+  pose proof (await_read_rem (io_fuel w1 0) true (input_space p') w1) as AR.
+  destruct (await_read (io_fuel w1 0) true (input_space p') w1) as [[b|k] w2|o w2]; [|discriminate E|].
+  - destruct b as [|x b]; [discriminate E|]. destruct AR as (A1 & _ & A3 & A4 & _).
+    rewrite A3 in Hrem1. change ((x :: b) ++ remaining w2) with ((x :: b) ++ remaining w2) in Hrem1.
+    apply bytes_ok_app in Hrem1.
+    destruct (IH p' (x :: b) w2 w' Hp1 (proj1 Hrem1) A4 (proj2 Hrem1) E) as (G0 & outs & C & L & Wo).
+    split; [exact G0|]. exists (out :: outs). split; [eapply PC_step; [exact EP| |exact C]; discriminate|].
+    cbn [concat]. split; [rewrite L, A1, L1, app_assoc; reflexivity|apply whole_app; assumption].
+  - injection E as -> ->. destruct AR as (A1 & _ & _ & A4). split; [apply A4; reflexivity|].
+    exists [out]. split; [eapply PC_last; exact EP|]. cbn [concat]. rewrite app_nil_r.
+    split; [rewrite A1; exact L1|exact Hout].
+Qed.
+
+Theorem parse_request_block_counts : parse_request_block_counts_stmt.
+Proof.
+  intros norm maxc fuel p new w w' Hp Hn Hl Hw _ Hwl E.
+  destruct (parse_request_whole norm maxc fuel p new w w' Hp Hn Hl (world_ok_remaining w Hw) E) as (G0 & outs & C & L & Wo).
+  exists outs. split; [exact C|]. split; [exact L|]. split; [exact Wo|].
+  split; [rewrite L; apply counts_app_proof; assumption|apply gated_next, G0].
+Qed.
+Print Assumptions parse_request_block_counts.
+
+(* ------------------------------------------------------------------------------------------ *)
+(* Part 3: an instance                                                                           *)
+(* ------------------------------------------------------------------------------------------ *)
+
+(* the client sends a GetValues query (FCGI_MAX_CONNS) at once and keeps the request's Stdin back until it has seen
+   one management reply: the second segment is gated on gm = 1 *)
+Definition ex_query : bytes := [1;9;0;0;0;16;0;0; 14;0; 70;67;71;73;95;77;65;88;95;67;79;78;78;83].
+Definition ex_stdin : bytes := [1;5;0;1;0;3;5;0; 97;98;99; 0;0;0;0;0] ++ [1;5;0;1;0;0;0;0].
+Definition ex_peer_w : world := mkW [] [] [(0, 0, ex_query); (0, 1, ex_stdin)] [] 0 1 0 false false [].
+Definition ex_peer_r : rstate := mkR ex_resp true false false.
+
+(* the handler's read is answered (with "abc"), the reply to the query is in the log, and the gate was met by it *)
+Example ex_peer_runs :
+  match await_input 10 (io_fuel ex_peer_w 0) (Some 10) ex_peer_r ex_peer_w with
+  | Ok (inl (n, b), _) w' => n = 3 /\ b = [97; 98; 99] /\ counts (wlog w') = (0, 1) /\ len (wlog w') = 32
+  | _ => False
+  end.
+Proof. vm_compute. repeat split; reflexivity. Qed.
+
+(* the hypotheses of [peer_read_no_deadlock] hold for it *)
+Example ex_peer_hyps :
+  pinv (rsp ex_peer_r) /\ bytes_ok (remaining ex_peer_w) /\ no_fault (wscript ex_peer_w) /\ whole (wlog ex_peer_w) /\
+  whole (output_buffer (rsp ex_peer_r)) /\
+  gates_owed_only 10 (abs (rsp ex_peer_r)) (counts (wlog ex_peer_w)) (segs ex_peer_w).
+Proof.
+  split; [apply new_sparser_pinv|]. split; [apply bytes_okb_ok; vm_compute; reflexivity|].
+  split; [constructor|]. split; [apply whole_nil|]. split; [apply whole_nil|].
+  intros pre ge gm b post E Hb. cbv zeta.
+  destruct pre as [|s1 [|s2 [|s3 pre]]]; cbn [app segs ex_peer_w] in E.
+  - injection E as <- <- _ _. vm_compute. split; discriminate.
+  - injection E as <- <- <- _ _. vm_compute. split; discriminate.
+  - injection E as _ _ E. discriminate E.
+  - injection E as _ _ E. discriminate E.
+Qed.
+
+(* ... and the second gate really depends on the reply: before the read the log does not meet it *)
+Example ex_peer_gate_closed_before : counts (wlog ex_peer_w) = (0, 0) /\ next_gate ex_peer_w = Some (0, 0) /\
+  counts (R 10 (abs (rsp ex_peer_r)) ex_query) = (0, 1).
+Proof. vm_compute. repeat split; reflexivity. Qed.
+
+Theorem replies_whole_full_is_false : ~ replies_whole_stmt.
+Proof. exact replies_whole_full_false. Qed.
+Print Assumptions replies_whole_full_is_false.
+
+(* the theorem applied to the instance: for every fuel, every kind of read and every final world *)
+Example ex_peer_no_deadlock fuel dest w' : await_input 10 fuel dest ex_peer_r ex_peer_w <> Halt ODeadlock w'.
+Proof.
+  destruct ex_peer_hyps as (H1 & H2 & H3 & H4 & H5 & H6).
+  exact (peer_read_no_deadlock 10 fuel dest ex_peer_r ex_peer_w w' H1 H2 H3 H4 H5 H6).
+Qed.
+
+(* a peer that asks for MORE than it is owed (two management replies for one query) is waited for in vain;
+   [read_block_counts] describes the log at that point: exactly the one reply owed, the gate (0, 2) not met *)
+Definition ex_greedy_w : world := mkW [] [] [(0, 0, ex_query); (0, 2, ex_stdin)] [] 0 1 0 false false [].
+Example ex_greedy_deadlocks :
+  match await_input 10 (io_fuel ex_greedy_w 0) (Some 10) ex_peer_r ex_greedy_w with
+  | Halt ODeadlock w' => remaining w' = ex_stdin /\ wlog w' = R 10 (abs (rsp ex_peer_r)) ex_query /\
+                         counts (wlog w') = (0, 1) /\ next_gate w' = Some (0, 2)
+  | _ => False
+  end.
+Proof. vm_compute. repeat split; reflexivity. Qed.
+
+Print Assumptions ex_peer_runs.
+Print Assumptions ex_peer_hyps.
+Print Assumptions ex_peer_no_deadlock.
+Print Assumptions ex_greedy_deadlocks.
